@@ -235,7 +235,7 @@ def rule_c(ctx, fns):
 IMMUTABLE_GETTERS = {"get_scanner_ptr", "get_scanner_sptr"}  # the scanner of a ProjDataInfo is fixed at construction
 
 
-def rule_e_tables_from_fixed_inputs(ctx, fns):
+def rule_e_tables_from_fixed_inputs(ctx, fns, rule="C01.e-tables-from-fixed-inputs"):
     """What a lazily built detector table STORES may only be computed from inputs that cannot change afterwards (the scanner) or whose
     every setter resets the table's flag.  A value that depends on, say, the current number of views goes stale when set_num_views()
     is called on the object or on a clone (which copies table and flag).  Sanity checks that end in error() may read anything."""
@@ -309,7 +309,7 @@ def rule_e_tables_from_fixed_inputs(ctx, fns):
                     if not resets and not overridden:
                         problems.append("%s -> field %s, which %s changes without resetting %s" % (short, fld, g.qn.split("::")[-1], sorted(flags)))
         problems = sorted(set(problems))
-        ctx.ob("C01.e-tables-from-fixed-inputs", f.qn, "stored-values", not problems, f.where(), "what is stored in %s is computed from the scanner only" % sorted(tables) if not problems else "stored table values depend on state that can change after the table was built: " + "; ".join(problems[:3]))
+        ctx.ob(rule, f.qn, "stored-values", not problems, f.where(), "what is stored in %s is computed from the scanner only" % sorted(tables) if not problems else "stored table values depend on state that can change after the table was built: " + "; ".join(problems[:3]))
         n += 1
     return n
 
